@@ -231,6 +231,15 @@ spec fn list_arcs_step(s: ArcsIterator, t: ArcsIterator, r: Option<(usize, usize
     &&& r is None ==> forall|a: int, b: int| !s.pending(a, b) && !t.pending(a, b)
 }
 
+impl AdjacencyList {
+    /*@fn impl=AdjacencyList trait=Arcs name=arcs rettype="ArcsIterator<'_>"
+    ensures
+        list_arcs_init(*self, r),
+        r.inv(),
+        forall|a: int, b: int| #[trigger] r.pending(a, b) == self.has(a, b),
+    @*/
+}
+
 // ---- C01 as a theorem about any complete run arcs(); next()*; next() == None ----
 
 /// the state `AdjacencyList::arcs` starts from (its struct literal: the rows of g, no row opened)
